@@ -62,8 +62,11 @@ def _replace_once(text, old, new, what, counts):
     return text.replace(old, new)
 
 
-def build(dirpath, arms=(), harness_src="", stub_loc=True):
-    """Write the crate into dirpath.  Returns dict(rewrites=..., arm_sha={...})."""
+def build(dirpath, arms=(), harness_src="", stub_loc=True, replace_methods=None):
+    """Write the crate into dirpath.  Returns dict(rewrites=..., arm_sha={...}).
+    replace_methods: {method name of `impl VmGreenThread`: replacement text} — each is one
+    more enumerated replacement (e.g. `step` by a contract-only nondeterministic stub in U8;
+    must be listed in the unit's assumptions)."""
     src = S.read(V)
     counts = {}
     src = _replace_once(src, "use crate::translate_bytecode::{BytecodeIndex, CompiledProgram};",
@@ -76,6 +79,9 @@ def build(dirpath, arms=(), harness_src="", stub_loc=True):
     if stub_loc:
         loc = S.method(V, r'impl VmGreenThread \{', 'pc_to_error_location', with_attrs=False)
         src = _replace_once(src, loc, STUB_LOC, "K4", counts)
+    for mname, mtext in (replace_methods or {}).items():
+        old = S.method(V, r'impl VmGreenThread \{', mname, with_attrs=False)
+        src = _replace_once(src, old, mtext, "K5:" + mname, counts)
     sha = {}
     lifted = "\n// ===== lifted step() arms (text cut from `fn step` above) =====\nimpl VmGreenThread {\n"
     for a in arms:
@@ -105,20 +111,38 @@ ASSUMED = [
 TRUSTED = ["kani 0.68 + cbmc 6.11 (bit-precise; machine integers are machine integers)", "rustc (Kani toolchain)"]
 
 
-def run_table(unit, tag, arms, harness_path, table, timeout=600, jobs=8, stub_loc=True, extra_info=None):
+def run_table(unit, tag, arms, harness_path, table, timeout=600, jobs=8, stub_loc=True, extra_info=None, kani_extra=()):
     """Generic Kani unit: build the crate, run every harness of `table`, map to obligations.
     table rows: dict(h=<fq harness>, id=<obligation id>, props=[..], fn=<function under contract>,
                      bounded=<None|str>, text=<contract text>, should_panic=<bool>)."""
     import engine as E
+    want = os.environ.get("ABRA_VERIF_PROP")
+    if want:
+        table = [r for r in table if want in r['props']]
+        if not table:
+            return [], dict(assumptions=[], trusted_base=[], checker_cmds=[], notes={})
     sc = E.Scratch(tag)
     try:
         with open(harness_path) as f:
             hsrc = f.read()
         info = build(sc.path, arms=arms, harness_src=hsrc, stub_loc=stub_loc)
-        res = E.run_kani(sc.path, [r['h'] for r in table], timeout=timeout, jobs=jobs)
+        allh = []
+        for r in table:
+            allh += r['h'] if isinstance(r['h'], list) else [r['h']]
+        res = E.run_kani(sc.path, allh, timeout=timeout, jobs=jobs, extra=kani_extra)
         obs = []
         for r in table:
-            k = res[r['h']]
+            if isinstance(r['h'], list):
+                # one obligation split over several harnesses (e.g. one per concrete shape): worst status wins
+                parts = [res[h] for h in r['h']]
+                order = {E.FAILED: 0, E.UNDECIDED: 1, E.DISCHARGED: 2}
+                worst = min(parts, key=lambda x: order[x['status']])
+                k = dict(status=worst['status'], failed=[f for x in parts for f in x['failed']],
+                         time_s=sum(x['time_s'] for x in parts), raw=worst['raw'],
+                         cover=[c for x in parts for c in x['cover']])
+                res[str(r['h'])] = k
+            else:
+                k = res[r['h']]
             st = k['status']
             detail = "\n".join(k['failed'][:6])
             # vacuity: a harness with covers must have at least one SATISFIED cover
@@ -127,11 +151,11 @@ def run_table(unit, tag, arms, harness_path, table, timeout=600, jobs=8, stub_lo
             if st != E.DISCHARGED and not detail:
                 detail = k['raw'][-1200:]
             obs.append(E.Obligation(r['id'], r['props'], unit, r['fn'], "kani/cbmc", st, detail, k['time_s'],
-                                    "abra_core/src/vm.rs", "", r.get('bounded'), r.get('text', "harness " + r['h'])))
+                                    "abra_core/src/vm.rs", "", r.get('bounded'), r.get("text") or ("harness " + str(r["h"]))))
         out = dict(assumptions=list(ASSUMED), trusted_base=list(TRUSTED),
                    checker_cmds=["cargo kani -Z function-contracts -Z stubbing --harness <h> --exact --output-format regular  (crate = vm.rs verbatim + units/vmk replacements)"],
                    notes=dict(rewrites=info['rewrites'], arm_sha=info['arm_sha'],
-                              covers={r['h']: res[r['h']]['cover'] for r in table if res[r['h']]['cover']}))
+                              covers={str(r['h']): res[str(r['h'])]['cover'] for r in table if res[str(r['h'])]['cover']}))
         if extra_info:
             out['assumptions'] += extra_info.get('assumptions', [])
         return obs, out
